@@ -1075,5 +1075,14 @@ seed("c17-reply-line-trimmed-at-print", "C17", "R-reply-format", "conn.go",
 """		c.text.PrintfLine("%d %v.%v.%v %v", code, enhCode[0], enhCode[1], enhCode[2], text[lastLineIndex])""",
 """		c.text.PrintfLine("%d %v.%v.%v %v", code, enhCode[0], enhCode[1], enhCode[2], strings.TrimSpace(text[lastLineIndex]))""", "last line trimmed when printed")
 
+seed("c09-auth-read-error-continues", "C09", "R-auth-read-failure-ends", "conn.go",
+"""		encoded, err = c.readLine()
+		if err != nil {
+			return // TODO: error handling
+		}""", """		encoded, err = c.readLine()
+		if err != nil {
+			continue
+		}""", "a failed read inside the SASL exchange steps the mechanism again with the previous response, forever on a dead connection")
+
 json.dump(S, open(os.path.join(os.path.dirname(os.path.abspath(__file__)), "bank.json"), "w"), indent=1)
 print(len(S), "seeds")
